@@ -385,6 +385,35 @@ def check_output_fn(rep, fn):
         if not pr.control_dependent(fn, ev, pos, cm):
             ok = False
             why.append('OUTPUT_STATE = VALID at line %s is not guarded by the success of upipe_set_flow_def' % pos[2].get('l'))
+    # after need_output (a probe may have connected another output, whose set_output reset the state to NONE) the state is
+    # declared INVALID only under a test that looks at the output again: otherwise the newly connected output is never
+    # offered the flow definition
+    need = pr.m_call('upipe_throw_need_output')
+    for npos in ev.find(need):
+        hits, _ = ev.reach((npos[0], npos[1]), state_store('UPIPE_HELPER_OUTPUT_INVALID'), need)
+        for h in hits:
+            def cm2(ctree, pol):
+                return any(y.get('k') == 'mem' and y.get('mp') == 'OUTPUT' for y in walk(fn.resolve(ctree)) if isinstance(y, dict)) or \
+                    any(y.get('k') == 'mem' and y.get('mp') == 'OUTPUT' for y in walk(ctree))
+            # blocks reachable from the event (the test must be made after it)
+            after, todo = set(), [npos[0]]
+            while todo:
+                b_ = todo.pop()
+                for s_ in fn.succ.get(b_, []):
+                    if s_ is not None and s_ not in after:
+                        after.add(s_)
+                        todo.append(s_)
+            after.add(npos[0])
+            guarded = False
+            for d_ in fn.dominators().get(h[0], ()):
+                c_ = fn.cond(d_)
+                if c_ and d_ in after and d_ != h[0] and cm2(c_[0], True):
+                    # and the event's block must itself reach the store through d_ (d_ lies between the two)
+                    guarded = True
+            if not guarded:
+                ok = False
+                why.append('after upipe_throw_need_output the state is set to INVALID (line %s) without looking at the output again: an output connected by the '
+                           'probe that answered the event is never offered the flow definition' % h[2].get('l'))
     # the INVALID arm frees the uref and returns without feeding
     if not ev.find(state_store('UPIPE_HELPER_OUTPUT_VALID')):
         ok = False
